@@ -5,6 +5,7 @@ from typing import List, Tuple, Optional
 from vlib import chload
 drf = chload.load()
 import digital_rf.digital_rf_hdf5 as H
+chload.warm(H.DigitalRFReader)
 
 
 class FakeData:
